@@ -85,12 +85,8 @@ def run(ctx, rep):
     import props.c09 as c09
     hf = db.fn(HASH_FU, 'C04')
     Th = exprtree.Trees(db, hf)
-    # the masked arm: events on the Vec<u8> buffer
-    evs = []
-    for bi, t in hf.calls():
-        if t['f'].get('name') in ('extend', 'extend_from_slice', 'push') and t.get('args'):
-            evs.append(exprtree.show(Th.operand(t['args'][1])))
-    rep.ob('C04.hash', 'preimage-order', evs == ['to_bytes_be(a1)', 'to_bytes_be(a2)'], f'masked-hash preimage appends: {evs} (expected x then y, big-endian)', hf.loc(), cfg)
+    okp_, evs = node_preimage(db)
+    rep.ob('C04.hash', 'preimage-order', okp_, f'masked-hash preimage appends: {evs} (expected x then y, big-endian)', hf.loc(), cfg)
     ups = [t for _, t in hf.calls() if t['f'].get('name') == 'update']
     rep.ob('C04.hash', 'hashed-once', len(ups) == 1, f'{len(ups)} update call(s)', hf.loc(), cfg)
     pos = [t for _, t in hf.calls() if (t['f'].get('resolved') or '').endswith('poseidon_hash::poseidon_hash')]
@@ -252,3 +248,14 @@ def run(ctx, rep):
                                                               '(auth, current) when bit==1' if okl else
                                                               f'cases seen {sorted(seen_orders)}; offending: {bad_paths[:3]}'),
            cr.loc(bad_paths[0][0]) if bad_paths else cr.loc(), cfg)
+
+
+def node_preimage(db):
+    """the masked node hash consumes all 32 big-endian bytes of the left child, then of the right child"""
+    hf = db.fn(HASH_FU, 'C04')
+    Th = exprtree.Trees(db, hf)
+    evs = []
+    for bi, t in hf.calls():
+        if t['f'].get('name') in ('extend', 'extend_from_slice', 'push') and t.get('args'):
+            evs.append(exprtree.show(Th.operand(t['args'][1])))
+    return evs == ['to_bytes_be(a1)', 'to_bytes_be(a2)'], evs
